@@ -31,6 +31,7 @@ import (
 	"verif/drivers/recsqlite"
 	"verif/h"
 	"verif/mc"
+	"verif/racelog"
 	"verif/sched"
 
 	"gorm.io/driver/sqlite"
@@ -665,9 +666,9 @@ func child(run *mc.Run, args mc.Args) {
 		ps = f
 	}
 	out.Counters["programs"] = 0
-	var rl *raceLog
+	var rl *racelog.Log
 	if sched.RaceBuild {
-		rl = newRaceLog(os.Getenv("VERIF_RACE_LOG"))
+		rl = racelog.New(os.Getenv("VERIF_RACE_LOG"))
 	}
 	outcomes := map[string]bool{}
 	const sub = 4
@@ -686,7 +687,7 @@ func child(run *mc.Run, args mc.Args) {
 			if ref == nil {
 				ref = runOne(p, mc.NewExec(nil), false, true)
 				if rl != nil {
-					rl.drain() // reports of the serial run (none expected) are not attributed
+					rl.Drain() // reports of the serial run (none expected) are not attributed
 				}
 			}
 			e := &mc.Explorer{Bound: p.Bound, Workers: 1, Shard: k, Shards: sub, ShardDepth: 2, Deadline: deadline}
@@ -707,9 +708,9 @@ func child(run *mc.Run, args mc.Args) {
 					out.Counters["deadlocks"]++
 				}
 				if rl != nil {
-					for _, rep := range rl.drain() {
+					for _, rep := range rl.Drain() {
 						out.Counters["race_reports"]++
-						pair, ok := rep.pair()
+						pair, ok := rep.Pair()
 						if !ok {
 							out.Counters["race_reports_ignored"]++
 							continue
@@ -717,8 +718,8 @@ func child(run *mc.Run, args mc.Args) {
 						if !contains(out.Sets["race_pairs"], pair) {
 							out.Sets["race_pairs"] = append(out.Sets["race_pairs"], pair)
 						}
-						run.Violation([]string{"race:" + pair}, "data-race\n"+p.String()+"\n"+pair+"\n"+rep.text,
-							Replay{Program: p, Choices: x.ChoiceInts(), Trace: x.Trace(), Race: rep.text})
+						run.Violation([]string{"race:" + pair}, "data-race\n"+p.String()+"\n"+pair+"\n"+rep.Text,
+							Replay{Program: p, Choices: x.ChoiceInts(), Trace: x.Trace(), Race: rep.Text})
 					}
 				}
 				for _, v := range judge(p, o, ref) {
